@@ -19,7 +19,9 @@ RULE = ('seeded (configuration, rewriting) pairs; rewritings are drawn and compo
         'families; compared: location of every task before/after (oracle, implementation) and literal keys implementation vs '
         'model for both; plus chains rebuilt in fresh interpreters with different PYTHONHASHSEED; '
         'distinct = distinct (spec, rewriting list); non-trivial = pipeline with at least 2 tasks and 1 persisted parameter')
-ASSUMPTIONS = ['JSON-like and ReprStr parameter values; parameter objects only in the dedicated K2 stream',
+ASSUMPTIONS = ['JSON-like and ReprStr parameter values; parameter objects in two dedicated streams: the K2 witness and generated AutoParameterObject '
+               'subclasses (per-argument storage convention: public, `_private`, private plus derived property/attribute, IgnoreForPersistence, '
+               'missing) compared with the Lean model TCV.AutoObj and rewritten (global_vars value, kwargs order, ignored argument)',
                'process independence is a runtime fact: established by correspondence across interpreters, the model being a function']
 TRUSTED = ['modelled, not verified: sorted() on str, dict insertion order semantics of CPython']
 
@@ -219,6 +221,8 @@ def run(ctx):
         ctx.fail('storage locations differ between interpreters with different PYTHONHASHSEED', {'spec': spec}, outs[:3])
     # ---- K2 witness: mapping-key order inside an object argument
     k2_witness(ctx, root)
+    # ---- parameter objects derived from AutoParameterObject
+    auto_objects(ctx, root)
 
 
 K2_SRC = '''
@@ -255,6 +259,163 @@ def k2_witness(ctx, root):
     ctx.case({'object': 'scalar kwargs order'})
     if p2[0] != p2[1]:
         ctx.fail('kwargs order of a parameter object with scalar arguments moved the location', {'kwargs': ['a,b', 'b,a']}, [str(p) for p in p2])
+    b.cleanup_module()
+
+
+# ------------------------------------------------------------------------------------------- AutoParameterObject
+
+AO_NAMES = ['root', 'a', 'b', 'size', 'opt', 'verbose', 'debug']
+AO_SCALARS = [0, 1, -3, 2.5, True, None, 'x', '', "it's", 'a b', 'é']
+
+
+def gen_auto_class(rng, k):
+    """declaration of one AutoParameterObject subclass + its source; storage convention chosen per argument"""
+    names = rng.sample(AO_NAMES, rng.randint(1, 4))
+    args = []
+    for n in names:
+        a = {'name': n, 'how': rng.choice(['pub', 'pub', 'priv', 'priv', 'priv+prop', 'priv+attr', 'ign'] + (['missing'] if rng.random() < 0.25 else []))}
+        if rng.random() < 0.5:
+            a['default'] = rng.choice(AO_SCALARS)
+        args.append(a)
+    # arguments with a default come last in a Python signature
+    args.sort(key=lambda a: 'default' in a)
+    ignore = rng.choice([None, None, [names[0]], []])
+    dpd = [a['name'] for a in args if 'default' in a and rng.random() < 0.4]
+    cls = f'AO{k}'
+    sig = ', '.join(a['name'] + (f"={a['default']!r}" if 'default' in a else '') for a in args)
+    body, props = [], []
+    for a in args:
+        n = a['name']
+        if a['how'] == 'pub':
+            body.append(f'self.{n} = {n}')
+        elif a['how'] == 'ign':
+            body.append(f'self.{n} = _Ign({n})')
+        elif a['how'] == 'missing':
+            body.append(f'self.{n}_renamed = {n}')
+        else:
+            body.append(f'self._{n} = {n}')
+            if a['how'] == 'priv+attr':
+                body.append(f'self.{n} = _derive({n})')
+            elif a['how'] == 'priv+prop':
+                props.append(f'    @property\n    def {n}(self):\n        return _derive(self._{n})\n')
+    src = [f'class {cls}(AutoParameterObject):', f'    def __init__(self, {sig}):'] + ['        ' + b for b in body] + props
+    if ignore is not None:
+        src.append(f'    @staticmethod\n    def ignore_persistence_args():\n        return {ignore!r}\n')
+    if dpd:
+        src.append(f'    @staticmethod\n    def dont_persist_default_value_args():\n        return {dpd!r}\n')
+    return {'cls': cls, 'args': args, 'ignore': ['verbose', 'debug'] if ignore is None else ignore, 'dpd': dpd}, '\n'.join(src) + '\n'
+
+
+AO_PRELUDE = '''
+from pathlib import Path as _P
+from taskchain.parameter import IgnoreForPersistence as _IFP
+
+
+class _Ign(_IFP):
+    def __init__(self, v):
+        self.v = v
+
+
+def _derive(v):
+    # what a convenience accessor typically returns: something computed from the raw argument
+    return _P(v) if isinstance(v, str) else [v, 'derived']
+'''
+
+
+def auto_objects(ctx, root):
+    from pathlib import PurePath
+    from taskchain import Config
+    from taskchain.parameter import IgnoreForPersistence
+    n = ctx.n(60, 800)
+    spec = {'classes': {'K0': {'name': 'o', 'group': '', 'params': [{'name': 'obj'}], 'inputs': [], 'kind': 'json', 'run_args': []}},
+            'files': {}, 'main': None}
+    modname = gen.fresh_modname()
+    b = pl.materialize(spec, root / 'ao', modname=modname)
+    decls, src = [], [AO_PRELUDE]
+    for k in range(n):
+        d, s_ = gen_auto_class(ctx.rng('ao-class', k), k)
+        decls.append(d); src.append(s_)
+    f = (root / 'ao').joinpath(*modname.split('.')).with_suffix('.py')
+    f.write_text(f.read_text() + '\n'.join(src))
+    mod = b.module()
+    task_cls = getattr(mod, pl.pyname('K0'))
+
+    def enc(x):
+        if isinstance(x, IgnoreForPersistence):
+            return 'ignored'
+        if isinstance(x, PurePath):
+            return {'o': repr(x)}
+        if isinstance(x, list):
+            return {'l': [enc(y) for y in x]}
+        return pl.to_model(x)
+
+    def build(d, kwargs, gv, order=None):
+        kw = {k_: kwargs[k_] for k_ in (order or list(kwargs))}
+        ch = Config(root / 'aod', name='c', data={'tasks': [task_cls], 'obj': {'class': f'{modname}.{d["cls"]}', 'kwargs': kw}},
+                    global_vars={'D': gv}).chain()
+        t = ch.tasks['o']
+        return t, t.params['obj']
+    reqs, metas = [], []
+    for k, d in enumerate(decls):
+        rng = ctx.rng('ao-val', k)
+        in_dpd_or_ign = set(d['dpd']) | set(d['ignore'])
+        kwargs = {}
+        for a in d['args']:
+            if 'default' in a and rng.random() < 0.4:
+                continue
+            r = rng.random()
+            if 'default' in a and a['name'] in d['dpd'] and r < 0.4:
+                v = a['default']
+            elif r < 0.35 and a['name'] not in d['dpd']:
+                v = rng.choice(['{D}/corpus', 'pre{D}', '{D}'])
+            elif r < 0.5:
+                v = [rng.choice(AO_SCALARS) for _ in range(rng.randint(0, 3))]
+            else:
+                v = rng.choice(AO_SCALARS)
+            kwargs[a['name']] = v
+        case = {'decl': d, 'kwargs': kwargs}
+        try:
+            t1, o1 = build(d, kwargs, '/srv/data')
+            impl = {'repr': o1.repr()}
+        except AttributeError:
+            impl = {'error': 'AttributeError'}; t1 = o1 = None
+        ctx.case(case, nontrivial=len(d['args']) >= 2)
+        ctx.count('auto-object:' + ('repr' if 'repr' in impl else 'attribute-error'))
+        for a in d['args']:
+            ctx.count(f"auto-arg:{a['how']}")
+        if o1 is None:
+            # the instance exists even if repr() fails: rebuild it directly for the model's view
+            inst = getattr(mod, d['cls'])(**{k_: v for k_, v in kwargs.items()})
+        else:
+            inst = o1
+        attrs = []
+        for a in d['args']:
+            for nme in ('_' + a['name'], a['name']):
+                if hasattr(inst, nme):
+                    attrs.append([nme, enc(getattr(inst, nme))])
+        req = {'m': 'autoobj', 'decl': {'cls': d['cls'], 'args': [{'name': a['name'], **({'default': pl.to_model(a['default'])} if 'default' in a else {})} for a in d['args']],
+                                       'ignore': d['ignore'], 'dpd': d['dpd']}, 'attrs': attrs}
+        req['np'] = sorted(pl.nonprintable(req))
+        reqs.append(req); metas.append((case, impl))
+        if t1 is None:
+            continue
+        # ---- oracle: computation-preserving rewritings of the object definition keep the location
+        loc = t1.data_path
+        rewrites = {'global_vars value': lambda: build(d, kwargs, '/home/me/mnt'),
+                    'kwargs order': lambda: build(d, kwargs, '/srv/data', order=list(reversed(list(kwargs))))}
+        ign = [a['name'] for a in d['args'] if a['name'] in d['ignore']]
+        if ign:
+            kw2 = {**kwargs, ign[0]: 'changed-ignored-argument'}
+            rewrites['value of an ignored argument'] = lambda: build(d, kw2, '/srv/data')
+        for what, fn in rewrites.items():
+            t2, _ = fn()
+            ctx.count(f'auto-rw:{what}')
+            if t2.data_path != loc:
+                ctx.fail('a computation-preserving rewriting of a parameter object moved a storage location', {**case, 'rewriting': what},
+                         {'before': str(loc), 'after': str(t2.data_path), 'repr_before': t1.params.repr, 'repr_after': t2.params.repr})
+    for (case, impl), mo in zip(metas, ctx.model.many(reqs)):
+        if impl != mo:
+            ctx.diverge('auto-parameter-object:repr', case, impl, mo)
     b.cleanup_module()
 
 
